@@ -65,6 +65,10 @@ TEqualsAB ==
             THEN PrintT(<<"JDV-KNOWN", Rec.sess, "C17", "v1-diff-ignores-precision">>)
        ELSE CheckK(FALSE, "C17", "empty-iff-equal")
 
+TRediff ==
+  /\ IsEvent("Rediff") /\ Consume /\ Keep /\ UNCHANGED ctx
+  /\ Judge("C17") => CheckK(Rec.st = "ok" /\ ((Rec.n1 = 0) <=> Rec.eq) /\ ((Rec.n2 = 0) <=> Rec.eq), "C17", "patched-document-rediff")
+
 TSame ==
   /\ IsEvent("Same") /\ Consume /\ Keep /\ UNCHANGED ctx
   /\ Judge("C17") => CheckK(Rec.res.st = "ok" /\ Rec.eq, "C17", "same-values")
@@ -102,7 +106,7 @@ TMergeTrip == IsEvent("MergeTrip") /\ Consume /\ Keep /\ UNCHANGED ctx
 
 TEnd == IsEvent("End") /\ Consume /\ doc' = Void /\ rest' = <<>> /\ status' = "idle" /\ ctx' = NoCtx
 
-Next == TBegin \/ TDiff \/ TStep \/ TEquals \/ TEqualsAB \/ TSame \/ TTextTrip \/ TRenderPatch \/ TPatchTrip \/ TRenderMerge \/ TMergeTrip
+Next == TBegin \/ TDiff \/ TStep \/ TEquals \/ TEqualsAB \/ TSame \/ TRediff \/ TTextTrip \/ TRenderPatch \/ TPatchTrip \/ TRenderMerge \/ TMergeTrip
         \/ TEnd \/ (Done /\ UNCHANGED <<doc, rest, status, ctx>>)
 Spec == Init /\ [][Next]_vars
 =============================================================================
